@@ -672,3 +672,42 @@ pub fn run(tier: Tier, seed: u64) -> i32 {
         Ok(())
     })
 }
+
+/// C07's share of this module: the spans (and slices) seen by Pratt fold callbacks. Runs a reduced table tier
+/// and returns the first failure whose signature concerns a callback span.
+pub fn callback_span_tier(ctx: &Ctx, ntab: u64, maxlen: usize, rewrap: &(dyn Fn(Case, Fail) -> (Case, Fail) + Sync)) {
+    let mut tables: Vec<Table> = static_catalogue::<'static>().into_iter().map(|(t, _)| t).collect();
+    {
+        let mut runner = tape_runner(ctx.seed, 97, 0);
+        use proptest::strategy::{Strategy, ValueTree};
+        let strat = proptest::collection::vec(proptest::num::u32::ANY, 40..=40);
+        for k in 0..ntab {
+            let tape = strat.new_tree(&mut runner).unwrap().current();
+            let mut t = Tape::new(&tape);
+            tables.push(gen_table(&mut t, k % 10 < 7));
+        }
+    }
+    ctx.par_jobs(&tables, |t, l| {
+        let mut alpha = alphabet(t);
+        alpha.push('z');
+        let mut len = maxlen;
+        while (alpha.len() as f64).powi(len as i32) > 20_000.0 && len > 3 {
+            len -= 1;
+        }
+        let mut l2 = Local::default();
+        for s in crate::gen::all_strings(&alpha, len) {
+            match check_with(t, &s, "exh", None, &mut l2) {
+                Ok(()) => {}
+                Err((c, f)) => {
+                    if f.sig.contains("callback") {
+                        return Err(rewrap(c, f));
+                    }
+                    // anything else is C09's own business
+                }
+            }
+        }
+        l.evals += l2.evals;
+        l.add("pratt_fold_callback_cases", l2.evals);
+        Ok(())
+    });
+}
